@@ -840,3 +840,43 @@ Proof.
 Qed.
 
 End ComposeFirstChars.
+
+(* ===== findFirstCharDefault ANSWERS: at every position of the text the whole default finder returns Ok
+   (no index fault = Crash, no exhausted loop = Fuel), whatever the anchors / Boyer-Moore oracles / FcPrefix are;
+   only when an optimized finder is in use does it need that finder's fact (which is what makes the published
+   distances / sets / chains usable as indices). ===== *)
+Lemma cf_first_char_loop_ok : forall (text : list Z) (set_in : Z -> Z -> bool) (rtl : bool) (fc : option fdfc) (p : Z),
+  0 <= p <= zlen text -> exists r, fd_first_char_loop text set_in rtl fc p = Ok r.
+Proof.
+  intros text set_in rtl fc p Hp. unfold fd_first_char_loop. destruct fc as [fc|]; [|eexists; reflexivity].
+  cbv zeta.
+  destruct (fd_fc_loop_spec text rtl
+              (match fc_singleton fc with Some ch => fun c => ch =? c | None => set_in (fc_set fc) end)
+              (Z.to_nat (if rtl then p else fd_n text - p)) p) as (found & q & Hr & _).
+  - unfold fd_n. destruct rtl; lia.
+  - exact Hp.
+  - eexists. exact Hr.
+Qed.
+
+Theorem cf_default_finder_answers_ok :
+  forall (R : Type) (text : list Z) (exec : Z -> option R * Z) (set_in : Z -> Z -> bool) (lower : Z -> Z)
+         (rtl : bool) (anchors ts : Z) (bm : option (Z -> bool)) (bm_scan : option (Z -> Z))
+         (o : option fdopts) (fc : option fdfc),
+  (forall o', o = Some o' -> fd_should_use_optimized o' = true ->
+     fd_minlen_fact R text exec (fo_minreq o') /\ fd_mode_fact R text exec set_in lower o') ->
+  forall p, 0 <= p <= zlen text ->
+  exists r, fd_find_first_char_default text set_in lower rtl anchors ts bm bm_scan o fc p = Ok r.
+Proof.
+  intros R text exec set_in lower rtl anchors ts bm bm_scan o fc Ho p Hp.
+  unfold fd_find_first_char_default.
+  destruct (abit anchors _); [eexists; reflexivity|].
+  destruct bm_scan as [sc|].
+  { destruct (sc p =? -1); eexists; reflexivity. }
+  unfold fd_ffc_nobm. cbv zeta. destruct o as [o'|]; [|apply cf_first_char_loop_ok; exact Hp].
+  destruct (fd_should_use_optimized o') eqn:E; [|apply cf_first_char_loop_ok; exact Hp].
+  destruct (Ho o' eq_refl E) as [Hmin Hfact].
+  destruct (fd_optimized_sound R text exec set_in lower o' (fd_should_use_handled o' E) Hmin Hfact) as [Hs Hh].
+  destruct (Hs p Hp) as (found & q & Hr & _). unfold fd_optimized_finder in Hr.
+  destruct (fd_find_first_char_optimized text set_in lower o' p) as [[[h f0] q0]| | |] eqn:Eo; cbn in Hr; try discriminate Hr.
+  pose proof (Hh p _ Eo) as Hh'. cbn in Hh'. subst h. cbn. eexists. reflexivity.
+Qed.
